@@ -66,63 +66,99 @@ def run(rep, prog, tier):
     initial(rep, prog)
 
 
-def growth(rep, prog):
-    fn = prog.fn("cell::update_target_volume")
+def _final_store(prog, fn):
     ev = S.SymEval(prog, fn)
-    stmts = [s for s in fn["body"]["c"] if strip(s).get("k") not in ("CXXStaticCastExpr",) and s.get("k") != "NullStmt"]
-    stmts = [s for s in stmts if not (strip(s).get("k") == "CXXStaticCastExpr")]
-    body = [s for s in fn["body"]["c"] if any(True for x in walk(s) if x.get("k") in ("BinaryOperator", "CompoundAssignOperator", "IfStmt") or s.get("k") == "IfStmt")]
-    try:
-        first = [s for s in fn["body"]["c"] if strip(s).get("k") in ("CompoundAssignOperator", "BinaryOperator")]
-        if not first:
-            raise S.Decline("no assignment")
-        ev.exec_stmt(first[0])
-        vt = ev.store.get("this.target_volume_")
-        dt = sp.Symbol(fn["params"][0]["name"], real=True)
-        exp = ev.sym("this.target_volume_") + dt * ev.sym("this.growth_rate_")
-        if vt is not None and S.zero(sp.sympify(vt) - exp):
-            rep.ok("C04.growth-law", prog, fn, first[0], "target_volume_ <- target_volume_ + time_step*growth_rate_")
-        else:
-            rep.violation("C04.growth-law", prog, fn, first[0], "target volume increment is not dt*growth_rate_", "update_target_volume sets target_volume_ to %s, expected target_volume_ + time_step*growth_rate_" % vt)
-        ifs = [s for s in fn["body"]["c"] if s.get("k") == "IfStmt"]
-        cl = clamp_of(S.SymEval(prog, fn), ifs[0]) if len(ifs) == 1 else None
-        mv = S.SymEval(prog, fn).sym("this.cell_type_.min_vol_")
-        fi = prog.index(fn)
-        after = ifs and fi.order[id(ifs[0])] > fi.order[id(first[0])]
-        if cl and cl[0] == "clamp" and cl[1] == "target_volume_" and cl[2] in ("<", "<=") and sp.sympify(cl[3]) == mv and after:
-            rep.ok("C04.growth-law", prog, fn, ifs[0], "then: if(target_volume_ < min_vol_) target_volume_ = min_vol_")
-        else:
-            rep.violation("C04.growth-law", prog, fn, ifs[0] if ifs else None, "target volume not clamped below by min_vol_", "after the increment the target volume must be clamped: if(target_volume_ < cell_type_->min_vol_) target_volume_ = cell_type_->min_vol_ (found %s)" % (cl,))
-    except S.Decline as e:
-        raise AnalysisBroken("%s: %s" % (prog.loc(fn), e))
+    for st_ in fn["body"].get("c", []):
+        r = ev.exec_tolerant(st_)
+        if r is not None:
+            break
+    return ev
+
+
+def _early_exit_stores(prog, fn):
+    """(if statement, evaluator) for every top-level 'if(c) return;' of fn: the state in which that path leaves the function"""
+    from ..model import always_exits
+    out = []
+    top = fn["body"].get("c", [])
+    for i, st_ in enumerate(top):
+        if st_.get("k") == "IfStmt" and (always_exits(st_["then"]) or (isinstance(st_.get("else"), dict) and always_exits(st_["else"]))) and i < len(top) - 1:
+            ev = S.SymEval(prog, fn)
+            for prev in top[:i]:
+                ev.exec_tolerant(prev)
+            br = st_["then"] if always_exits(st_["then"]) else st_["else"]
+            ev.exec_tolerant(br)
+            out.append((st_, ev))
+    return out
+
+
+def growth(rep, prog):
+    """update_target_volume(dt): the value the function leaves in target_volume_, as a symbolic expression, must be
+    max(target_volume_ + dt*growth_rate_, min_vol_) - whatever the statement forms (+=, clamping if, std::max, locals)."""
+    fn = prog.fn("cell::update_target_volume")
+    ev = _final_store(prog, fn)
+    vt = ev.store.get("this.target_volume_")
+    dt = sp.Symbol(fn["params"][0]["name"], real=True)
+    V0, g, mv = ev.sym("this.target_volume_"), ev.sym("this.growth_rate_"), ev.sym("this.cell_type_.min_vol_")
+    inc = V0 + dt * g
+    if vt is None:
+        rep.violation("C04.growth-law", prog, fn, None, "target volume is not updated", "update_target_volume does not assign target_volume_")
+        return
+    v = sp.sympify(vt)
+    # the un-clamped part
+    core = v
+    if isinstance(v, sp.Max) and len(v.args) == 2:
+        rest = [a for a in v.args if sp.simplify(a - mv) != 0]
+        core = rest[0] if len(rest) == 1 else v
+    if S.zero(sp.expand(core - inc)):
+        rep.ok("C04.growth-law", prog, fn, None, "target_volume_ <- target_volume_ + time_step*growth_rate_")
+    else:
+        rep.violation("C04.growth-law", prog, fn, None, "target volume increment is not dt*growth_rate_", "update_target_volume sets target_volume_ to %s, expected target_volume_ + time_step*growth_rate_ (then clamped below by min_vol_)" % re.sub(r"this\.|cell_type_\.", "", str(v)))
+    early = []
+    for ifs, ev2 in _early_exit_stores(prog, fn):
+        w = ev2.store.get("this.target_volume_")
+        w = sp.sympify(w) if w is not None else V0
+        if not (isinstance(w, sp.Max) and any(sp.simplify(a - mv) == 0 for a in w.args)):
+            early.append((ifs, w))
+    if early:
+        ifs, w = early[0]
+        rep.violation("C04.growth-law", prog, fn, ifs, "a path leaves update_target_volume without the min_vol_ floor",
+                      "when '%s' holds the function returns with target_volume_ = %s: the increment and the floor 'target volume never drops below the type's minimum volume' are skipped on that path "
+                      "(e.g. a target volume set below min_vol_ by the initial-pressure formula or by a division is never corrected)" % (short(ifs["cond"], 60), re.sub(r"this\.|cell_type_\.", "", str(w))))
+    elif isinstance(v, sp.Max) and any(sp.simplify(a - mv) == 0 for a in v.args) and len(v.args) == 2:
+        rep.ok("C04.growth-law", prog, fn, None, "then clamped below: target_volume_ = max(..., min_vol_)")
+    else:
+        rep.violation("C04.growth-law", prog, fn, None, "target volume not clamped below by min_vol_", "after the increment the target volume must be clamped below by cell_type_->min_vol_ on every path; update_target_volume leaves %s" % re.sub(r"this\.|cell_type_\.", "", str(v)))
 
 
 def pressure(rep, prog):
+    """update_pressure: the value left in pressure_ must be min(-K*log(V/Vt), max_pressure_)."""
     fn = prog.fn("cell::update_pressure")
-    ev = S.SymEval(prog, fn)
-    try:
-        assigns = [s for s in fn["body"]["c"] if strip(s).get("k") == "BinaryOperator" and strip(s).get("op") == "=" and render(strip(s)["c"][0]) == "pressure_"]
-        if not assigns:
-            raise S.Decline("pressure_ is never assigned")
-        ev.exec_stmt(assigns[0])
-        p = ev.store.get("this.pressure_")
-        K, V, Vt = ev.sym("this.cell_type_.bulk_modulus_"), ev.sym("this.volume_"), ev.sym("this.target_volume_")
-        if p is not None and sp.simplify(sp.sympify(p) + K * sp.log(V / Vt)) == 0:
-            rep.ok("C04.pressure-law", prog, fn, assigns[0], "pressure_ = -bulk_modulus_*log(volume_/target_volume_)")
-        else:
-            rep.violation("C04.pressure-law", prog, fn, assigns[0], "pressure is not -K*log(V/V_target)", "update_pressure computes %s, expected -bulk_modulus_*log(volume_/target_volume_)" % p)
-        ifs = [s for s in fn["body"]["c"] if s.get("k") == "IfStmt"]
-        fi = prog.index(fn)
-        good = False
-        for i_ in ifs:
-            cl = clamp_of(S.SymEval(prog, fn), i_)
-            if cl and cl[0] == "clamp" and cl[1] == "pressure_" and cl[2] in (">", ">=") and sp.sympify(cl[3]) == ev.sym("this.cell_type_.max_pressure_") and fi.order[id(i_)] > fi.order[id(assigns[0])]:
-                good = True
-                rep.ok("C04.pressure-law", prog, fn, i_, "then: if(pressure_ > max_pressure_) pressure_ = max_pressure_")
-        if not good:
-            rep.violation("C04.pressure-law", prog, fn, None, "pressure not capped by max_pressure_", "after the logarithmic law the pressure must be capped: if(pressure_ > cell_type_->max_pressure_) pressure_ = cell_type_->max_pressure_")
-    except S.Decline as e:
-        raise AnalysisBroken("%s: %s" % (prog.loc(fn), e))
+    ev = _final_store(prog, fn)
+    p = ev.store.get("this.pressure_")
+    K, V, Vt, pm = ev.sym("this.cell_type_.bulk_modulus_"), ev.sym("this.volume_"), ev.sym("this.target_volume_"), ev.sym("this.cell_type_.max_pressure_")
+    if p is None:
+        rep.violation("C04.pressure-law", prog, fn, None, "pressure is not updated", "update_pressure does not assign pressure_")
+        return
+    v = sp.sympify(p)
+    # locals kept lazily (e.g. const double log_ratio = log(V/Vt)) are expanded
+    for _ in range(4):
+        v2, ch = ev.expand_once(v)
+        if not ch:
+            break
+        v = v2
+    core = v
+    if isinstance(v, sp.Min) and len(v.args) == 2:
+        rest = [a for a in v.args if sp.simplify(a - pm) != 0]
+        core = rest[0] if len(rest) == 1 else v
+    law = -K * sp.log(V / Vt)
+    if sp.simplify(sp.expand_log(core - law, force=True)) == 0 or sp.simplify(core - law) == 0:
+        rep.ok("C04.pressure-law", prog, fn, None, "pressure_ = -bulk_modulus_*log(volume_/target_volume_)")
+    else:
+        rep.violation("C04.pressure-law", prog, fn, None, "pressure is not -K*log(V/V_target)", "update_pressure computes %s, expected -bulk_modulus_*log(volume_/target_volume_)" % re.sub(r"this\.|cell_type_\.", "", str(core)))
+    if isinstance(v, sp.Min) and len(v.args) == 2 and any(sp.simplify(a - pm) == 0 for a in v.args):
+        rep.ok("C04.pressure-law", prog, fn, None, "then capped above: pressure_ = min(..., max_pressure_)")
+    else:
+        rep.violation("C04.pressure-law", prog, fn, None, "pressure not capped by max_pressure_ (only from above)", "after the logarithmic law the pressure must be capped from above by cell_type_->max_pressure_ and by nothing else; update_pressure leaves %s" % re.sub(r"this\.|cell_type_\.", "", str(v)))
 
 
 FORCE_FNS = ["cell::apply_pressure_on_surface", "cell::apply_surface_tension_and_membrane_elasticity", "cell::apply_bending_forces"]
@@ -182,32 +218,92 @@ def trigger(rep, prog):
 
 
 def three_sigma(rep, prog):
+    """The value stored by the random branch, as a symbolic expression over the drawn sample: it must be
+    max(mean - 3 sigma, min(sample, mean + 3 sigma)) with the mean and sigma of the field's OWN distribution, and the sample must
+    come from normal_distribution(mean, sigma) of the same two parameters. Decided on the value, not on the statement forms
+    (clamping ifs, std::min/max, a helper lambda)."""
     fn = prog.fn("cell::initialize_random_properties")
-    fi = prog.index(fn)
+    top = fn["body"].get("c", [])
     for var, avg, std in (("growth_rate_", "avg_growth_rate_", "std_growth_rate_"), ("division_volume_", "avg_division_vol_", "std_division_vol_")):
-        ev = S.SymEval(prog, fn)
-        A, Sd = ev.sym("this.cell_type_." + avg), ev.sym("this.cell_type_." + std)
-        found = {"<": None, ">": None}
-        for n in walk(fn["body"]):
-            if n.get("k") == "IfStmt":
-                cl = clamp_of(S.SymEval(prog, fn), n)
-                if cl and cl[1] == var:
-                    found[cl[2][0]] = (cl, n)
-        for op, exp, nm in ((">", A + 3 * Sd, "upper"), ("<", A - 3 * Sd, "lower")):
-            got = found[op]
-            if got and got[0][0] == "clamp" and S.zero(sp.sympify(got[0][3]) - exp):
-                rep.ok("C04.three-sigma", prog, fn, got[1], "%s: %s bound = %s %s 3*%s" % (var, nm, avg, "+" if op == ">" else "-", std))
-            else:
-                rep.violation("C04.three-sigma", prog, fn, got[1] if got else None, "%s %s clamp is not mean %s 3 sigma of its own distribution" % (var, nm, "+" if op == ">" else "-"),
-                              "the drawn %s must be clamped to %s %s 3*%s; found %s" % (var, avg, "+" if op == ">" else "-", std, re.sub(r"this\.cell_type_\.", "", str(got[0][3:]) if got else "no clamp")))
-        # the distribution is built from the same mean / std
-        dists = [n for n in walk(fn["body"]) if n.get("k") == "Var" and "normal_distribution" in n.get("t", "")]
-        for d in dists:
-            loopvars = [x for x in walk(fn["body"]) if x.get("k") == "BinaryOperator" and x.get("op") == "=" and render(x["c"][0]) == var and any(y.get("k") == "DeclRefExpr" and y["ref"]["did"] == d["did"] for y in walk(x["c"][1]))]
-            if loopvars:
-                args = [render(a) for a in call_args(strip(d["init"]))] if is_call(strip(d["init"])) else []
-                if not (len(args) == 2 and args[0].endswith(avg) and args[1].endswith(std)):
-                    rep.violation("C04.three-sigma", prog, fn, d, "%s drawn from a distribution with other parameters" % var, "%s is drawn from normal_distribution(%s), expected (%s, %s)" % (var, ", ".join(args), avg, std))
+        # the if statement whose two branches assign the field
+        site = None
+        for n in top:
+            if n.get("k") == "IfStmt" and isinstance(n.get("else"), dict):
+                def assigns(b):
+                    return any(x.get("k") == "BinaryOperator" and x.get("op") == "=" and strip(x["c"][0]).get("k") == "MemberExpr" and strip(x["c"][0])["ref"].get("name") == var for x in walk(b))
+                if assigns(n["then"]) and assigns(n["else"]):
+                    site = n
+        if site is None:
+            raise AnalysisBroken("initialize_random_properties: the random / fixed branches of %s were not found" % var)
+        vals = {}
+        for br in ("then", "else"):
+            ev = S.SymEval(prog, fn)
+            for st_ in top:
+                if st_ is site:
+                    break
+                if st_.get("k") != "IfStmt":
+                    ev.exec_tolerant(st_)
+            ev.exec_tolerant(site[br])
+            vals[br] = (ev, ev.store.get("this." + var))
+        A, Sd = vals["then"][0].sym("this.cell_type_." + avg), vals["then"][0].sym("this.cell_type_." + std)
+        # which branch is the random one: the one whose value is not simply the mean
+        rnd = "then" if vals["else"][1] is not None and S.zero(sp.sympify(vals["else"][1]) - A) else ("else" if vals["then"][1] is not None and S.zero(sp.sympify(vals["then"][1]) - A) else None)
+        if rnd is None:
+            rep.violation("C04.three-sigma", prog, fn, site, "%s: the non-random branch does not store the mean" % var, "when the standard deviation is zero %s must be %s; found %s / %s" % (var, avg, vals["then"][1], vals["else"][1]))
+            continue
+        v = sp.sympify(vals[rnd][1]) if vals[rnd][1] is not None else None
+        lo, hi = A - 3 * Sd, A + 3 * Sd
+        ok = False
+        sample = None
+        if v is not None:
+            unknown = [a for a in v.free_symbols if a not in (A, Sd)]
+            if len(unknown) == 1:
+                sample = unknown[0]
+                want = sp.Max(lo, sp.Min(sample, hi))
+                # compare as functions of the sample on the three regimes (below, inside, above), sigma > 0
+                ok = all(sp.simplify(v.subs(sample, p_) - want.subs(sample, p_)).subs(Sd, sp.Symbol("_s", positive=True)).simplify() == 0
+                         for p_ in (lo - 1, A, hi + 1))
+                ok = ok and v.has(sp.Min) and v.has(sp.Max)
+        if ok:
+            rep.ok("C04.three-sigma", prog, fn, site, "%s = max(%s - 3*%s, min(sample, %s + 3*%s))" % (var, avg, std, avg, std))
+            rep.ok("C04.three-sigma", prog, fn, site, "%s: both bounds belong to the field's own distribution" % var)
+        else:
+            rep.violation("C04.three-sigma", prog, fn, site, "%s is not clamped to mean +/- 3 sigma of its own distribution" % var,
+                          "the drawn %s must end as max(%s - 3*%s, min(sample, %s + 3*%s)); the random branch stores %s" % (var, avg, std, avg, std, re.sub(r"this\.cell_type_\.|#\d+|@\d+", "", str(v))[:200]))
+        # the distribution the sample is drawn from
+        dists = [n for n in walk(site[rnd]) if n.get("k") == "Var" and "normal_distribution" in n.get("t", "")]
+        if len(dists) != 1:
+            raise AnalysisBroken("initialize_random_properties: normal_distribution of %s not found in its random branch" % var)
+        d = dists[0]
+        init = strip(d["init"]) if isinstance(d.get("init"), dict) else {}
+        args = call_args(init) if is_call(init) else []
+        evd = S.SymEval(prog, fn)
+        for st_ in top:
+            if st_ is site:
+                break
+            if st_.get("k") != "IfStmt":
+                evd.exec_tolerant(st_)
+        good = False
+        if len(args) == 2:
+            # parameters of an inlined helper are locals initialised with the arguments: execute up to the declaration
+            def run_until(b):
+                for st_ in (b.get("c", []) if b.get("k") == "CompoundStmt" else [b]):
+                    if any(x is d for x in walk(st_)):
+                        if st_.get("k") == "CompoundStmt":
+                            return run_until(st_)
+                        return True
+                    evd.exec_tolerant(st_)
+                return False
+            run_until(site[rnd])
+            try:
+                a0, a1 = sp.sympify(evd.ev(args[0])), sp.sympify(evd.ev(args[1]))
+                good = S.zero(a0 - A) and S.zero(a1 - Sd)
+            except S.Decline:
+                good = False
+        if good:
+            rep.ok("C04.three-sigma", prog, fn, d, "%s is drawn from normal_distribution(%s, %s)" % (var, avg, std))
+        else:
+            rep.violation("C04.three-sigma", prog, fn, d, "%s drawn from a distribution with other parameters" % var, "%s is drawn from normal_distribution(%s), expected (%s, %s)" % (var, ", ".join(render(a) for a in args), avg, std))
 
 
 def removal(rep, prog):
@@ -220,26 +316,71 @@ def removal(rep, prog):
         rep.violation("C04.removal", prog, pred, None, "removal predicate is not volume_ < min_vol_", "cell::is_below_min_vol returns %s" % (short(rets[0]["value"], 60) if rets else "?"))
     it = prog.fn("solver::run_iteration")
     fi = prog.index(it)
+    from ..model import expand
     erases = [n for n in walk(it["body"]) if n.get("k") == "CXXMemberCallExpr" and n.get("callee", "").endswith("::erase") and render(call_obj(n)).endswith("cell_lst_")]
     integ = [n for n in walk(it["body"]) if n.get("k") == "CXXMemberCallExpr" and n.get("callee") == "time_integration_scheme::update_nodes_positions"]
     ok = False
+    why = "found %d erase call(s) on cell_lst_" % len(erases)
     if len(erases) == 1 and integ:
         e = erases[0]
-        lam = [x for x in walk(e) if x.get("k") == "LambdaExpr"]
-        rm = [x for x in walk(e) if x.get("k") == "CallExpr" and x.get("callee") == "std::remove_if"]
-        if lam and rm and fi.order[id(e)] > fi.order[id(integ[0])] and fi.enclosing(e, ("IfStmt", "ForStmt")) is None:
-            lrets = [x for x in walk(lam[0]["body"]) if x.get("k") == "ReturnStmt"]
-            pred_ok = len(lrets) == 1 and strip(lrets[0]["value"]).get("callee") == "cell::is_below_min_vol"
-            clears = [x for x in walk(lam[0]["body"]) if x.get("k") == "CXXMemberCallExpr" and x.get("callee") == "cell::clear_data"]
-            li = fi
-            clear_ok = bool(clears) and any(strip(cnd).get("callee") == "cell::is_below_min_vol" and pol for cnd, pol in fi.guards(clears[0]))
-            ends = [render(a) for a in call_args(e)]
-            if pred_ok and clear_ok:
-                ok = True
+        a = call_args(e)
+        from ..model import def_chain
+        rm = [x for d_ in def_chain(it, a[0]) for x in walk(d_) if x.get("k") == "CallExpr" and x.get("callee") == "std::remove_if"] if a else []      # original nodes (indexed)
+        uncond = all(p_.get("k") not in ("IfStmt", "ForStmt", "WhileStmt", "CXXForRangeStmt") for p_, _s, _c in fi.ancestors(e))
+        if not rm:
+            why = "the erased range does not start at std::remove_if(...)"
+        elif not (fi.order[id(e)] > fi.order[id(integ[0])] and uncond):
+            why = "the removal does not run unconditionally after update_nodes_positions"
+        else:
+            ra = call_args(rm[0])
+            whole = len(ra) == 3 and render(ra[0]).replace(" ", "").endswith("cell_lst_.begin()}") | render(ra[0]).replace(" ", "").endswith("cell_lst_.begin()") and "cell_lst_.end()" in render(ra[1]) and len(a) == 2 and "cell_lst_.end()" in render(a[1])
+            pred = strip(ra[2]) if len(ra) == 3 else {}
+            while pred.get("k") in ("CXXConstructExpr", "MaterializeTemporaryExpr", "CXXBindTemporaryExpr", "ImplicitCastExpr") and pred.get("c"):
+                pred = strip(pred["c"][0])
+            pbody = pparam = None
+            pfn = it
+            if pred.get("k") == "LambdaExpr":
+                pbody, pparam = pred["body"], (pred["params"][0]["did"] if pred.get("params") else None)
+            elif pred.get("k") == "DeclRefExpr" and pred["ref"].get("dk") == "Function":
+                cands = [f for f in prog.fns(pred["ref"].get("qn") or pred["ref"]["name"]) if isinstance(f.get("body"), dict)]
+                if len(cands) == 1:
+                    pfn = cands[0]
+                    pbody, pparam = pfn["body"], (pfn["params"][0]["did"] if pfn.get("params") else None)
+            if not whole:
+                why = "remove_if / erase do not range over the whole population"
+            elif pbody is None:
+                why = "the predicate handed to remove_if is neither a lambda nor a function of this program"
+            else:
+                pi = prog.index(pfn)
+                def is_below(x, pol=True):
+                    x = strip(x)
+                    while x.get("k") == "UnaryOperator" and x.get("op") == "!":
+                        pol = not pol
+                        x = strip(x["c"][0])
+                    if x.get("k") == "CXXMemberCallExpr" and x.get("callee") == "cell::is_below_min_vol":
+                        return pol
+                    return None
+                rets = [r for r in walk(pbody, into_lambdas=False) if r.get("k") == "ReturnStmt" and isinstance(r.get("value"), dict)]
+                good = bool(rets)
+                for r in rets:
+                    v = strip(r["value"])
+                    if is_below(v) is True:
+                        continue
+                    if v.get("k") == "CXXBoolLiteralExpr":
+                        implied = [is_below(c_, pol) for c_, pol in pi.guards(r)]
+                        if (bool(v.get("v")) is True and True in implied) or (bool(v.get("v")) is False and False in implied):
+                            continue
+                    good = False
+                clears = [x for x in walk(pbody) if x.get("k") == "CXXMemberCallExpr" and x.get("callee") == "cell::clear_data"]
+                clear_ok = bool(clears) and any(is_below(c_, pol) is True for c_, pol in pi.guards(clears[0]))
+                if good and clear_ok:
+                    ok = True
+                else:
+                    why = "the predicate of remove_if does not return is_below_min_vol() on every path" if not good else "clear_data() is not called exactly for the cells below the minimum volume"
     if ok:
         rep.ok("C04.removal", prog, it, erases[0], "after update_nodes_positions: cell_lst_.erase(remove_if(is_below_min_vol -> clear_data), end)")
     else:
-        rep.violation("C04.removal", prog, it, erases[0] if erases else None, "small cells are not removed at the end of the iteration", "run_iteration must, after the position update, erase exactly the cells for which is_below_min_vol() holds (clearing their data); found %d erase call(s)" % len(erases))
+        rep.violation("C04.removal", prog, it, erases[0] if erases else None, "small cells are not removed at the end of the iteration", "run_iteration must, after the position update, erase exactly the cells for which is_below_min_vol() holds (clearing their data): %s" % why)
     # insertions into the population
     ins = []
     for g in product_fns(prog):
